@@ -22,6 +22,8 @@ pub enum Op {
     RegisterNonResident,
     /// assertion without allow list (discoverable-credential lookup by RP)
     AssertAny,
+    /// two assertions with seeded credential n, one after the other, in one task
+    AssertTwice(u8),
 }
 #[derive(Clone, Debug, Serialize, Deserialize, PartialEq, Eq, Hash)]
 pub struct Scenario {
@@ -39,6 +41,38 @@ pub enum Outcome {
     Asserted { cred: Vec<u8>, counter: u32 },
     Registered { cred: Vec<u8> },
     Failed(u8),
+    /// two assertions in sequence: counter or status byte of each
+    AssertedTwice { cred: Vec<u8>, first: Result<u32, u8>, second: Result<u32, u8> },
+}
+
+/// A store whose first `update_credential` call fails (the write-back of a counter is lost once).
+pub struct FlakyUpdate<S> {
+    inner: S,
+    failed: std::sync::atomic::AtomicBool,
+}
+#[async_trait::async_trait]
+impl<S: CredentialStore<PasskeyItem = Passkey> + Send + Sync> CredentialStore for FlakyUpdate<S> {
+    type PasskeyItem = Passkey;
+    async fn find_credentials(&self, ids: Option<&[passkey_types::webauthn::PublicKeyCredentialDescriptor]>, rp_id: &str) -> Result<Vec<Passkey>, passkey_types::ctap2::StatusCode> {
+        self.inner.find_credentials(ids, rp_id).await
+    }
+    async fn save_credential(&mut self, cred: Passkey, user: passkey_types::ctap2::make_credential::PublicKeyCredentialUserEntity, rp: passkey_types::ctap2::make_credential::PublicKeyCredentialRpEntity, options: passkey_types::ctap2::get_assertion::Options) -> Result<(), passkey_types::ctap2::StatusCode> {
+        self.inner.save_credential(cred, user, rp, options).await
+    }
+    async fn update_credential(&mut self, cred: Passkey) -> Result<(), passkey_types::ctap2::StatusCode> {
+        if !self.failed.swap(true, std::sync::atomic::Ordering::SeqCst) {
+            return Err(passkey_types::ctap2::Ctap2Error::KeyStoreFull.into());
+        }
+        self.inner.update_credential(cred).await
+    }
+    async fn get_info(&self) -> passkey_authenticator::StoreInfo {
+        self.inner.get_info().await
+    }
+}
+impl<S: Inspect> Inspect for FlakyUpdate<S> {
+    fn recs(&self) -> Vec<Rec> {
+        self.inner.recs()
+    }
 }
 
 const RP: &str = "example.com";
@@ -64,6 +98,11 @@ where
                 Ok(r) => Outcome::Asserted { cred: r.credential.map(|d| d.id.to_vec()).unwrap_or_default(), counter: r.auth_data.counter.unwrap_or(0) },
                 Err(e) => Outcome::Failed(e.into()),
             },
+            Op::AssertTwice(n) => {
+                let first = auth.get_assertion(ga_request(RP, Some(vec![cred_id(n)]), false, true, true, false, None)).await.map(|r| r.auth_data.counter.unwrap_or(0)).map_err(u8::from);
+                let second = auth.get_assertion(ga_request(RP, Some(vec![cred_id(n)]), false, true, true, false, None)).await.map(|r| r.auth_data.counter.unwrap_or(0)).map_err(u8::from);
+                Outcome::AssertedTwice { cred: cred_id(n), first, second }
+            }
             Op::AssertAny => match auth.get_assertion(ga_request(RP, None, false, true, true, false, None)).await {
                 Ok(r) => Outcome::Asserted { cred: r.credential.map(|d| d.id.to_vec()).unwrap_or_default(), counter: r.auth_data.counter.unwrap_or(0) },
                 Err(e) => Outcome::Failed(e.into()),
@@ -92,6 +131,15 @@ fn build(sc: &Scenario) -> (Vec<Task>, Results, Box<dyn Fn() -> Vec<Rec>>) {
     match (sc.store.as_str(), sc.lock.as_str()) {
         ("option", "mutex") => go!(Arc::new(tokio::sync::Mutex::new(Yielding { inner: seeds().into_iter().next(), before: 1, after: 0 }))),
         ("option", _) => go!(Arc::new(tokio::sync::RwLock::new(Yielding { inner: seeds().into_iter().next(), before: 1, after: 0 }))),
+        ("memory-flaky", lock) => {
+            let m: MemoryStore = seeds().into_iter().map(|p| (p.credential_id.to_vec(), p)).collect();
+            let inner = Yielding { inner: FlakyUpdate { inner: m, failed: Default::default() }, before: 1, after: 0 };
+            if lock == "mutex" {
+                go!(Arc::new(tokio::sync::Mutex::new(inner)))
+            } else {
+                go!(Arc::new(tokio::sync::RwLock::new(inner)))
+            }
+        }
         (_, "mutex") => {
             let m: MemoryStore = seeds().into_iter().map(|p| (p.credential_id.to_vec(), p)).collect();
             go!(Arc::new(tokio::sync::Mutex::new(Yielding { inner: m, before: 1, after: 0 })))
@@ -126,14 +174,29 @@ fn judge(sc: &Scenario, end: &End, outs: &[Option<Outcome>], store: &[Rec]) -> V
                 }
             }
             Some(Outcome::Asserted { .. }) => {}
+            Some(Outcome::AssertedTwice { first, second, .. }) => {
+                let failures = [first, second].iter().filter(|r| r.is_err()).count();
+                let allowed = usize::from(sc.store == "memory-flaky");
+                if failures > allowed {
+                    v.push(("ceremony-failed".into(), format!("ceremony {i}: assertions in sequence ended {first:?} then {second:?}; the store loses at most {allowed} counter write-back(s)")));
+                }
+            }
         }
     }
     // per credential: pairwise distinct counters, maximum = stored value
-    let mut creds: Vec<Vec<u8>> = outs.iter().filter_map(|o| if let Some(Outcome::Asserted { cred, .. }) = o { Some(cred.clone()) } else { None }).collect();
+    let asserted: Vec<(Vec<u8>, u32)> = outs
+        .iter()
+        .flat_map(|o| match o {
+            Some(Outcome::Asserted { cred, counter }) => vec![(cred.clone(), *counter)],
+            Some(Outcome::AssertedTwice { cred, first, second }) => [first, second].iter().filter_map(|r| r.as_ref().ok().map(|c| (cred.clone(), *c))).collect(),
+            _ => vec![],
+        })
+        .collect();
+    let mut creds: Vec<Vec<u8>> = asserted.iter().map(|a| a.0.clone()).collect();
     creds.sort();
     creds.dedup();
     for c in creds {
-        let mut counters: Vec<u32> = outs.iter().filter_map(|o| if let Some(Outcome::Asserted { cred, counter }) = o { (*cred == c).then_some(*counter) } else { None }).collect();
+        let mut counters: Vec<u32> = asserted.iter().filter(|a| a.0 == c).map(|a| a.1).collect();
         let max = counters.iter().copied().max().unwrap_or(0);
         counters.sort();
         let before = counters.len();
@@ -148,7 +211,7 @@ fn judge(sc: &Scenario, end: &End, outs: &[Option<Outcome>], store: &[Rec]) -> V
     }
     // seeded credentials never disappear
     for s in seeds() {
-        if sc.store == "memory" && !store.iter().any(|r| r.id == s.credential_id.to_vec()) {
+        if sc.store.starts_with("memory") && !store.iter().any(|r| r.id == s.credential_id.to_vec()) {
             v.push(("seeded-credential-lost".into(), "a credential that existed before is gone".into()));
         }
     }
@@ -176,7 +239,12 @@ pub fn scenarios(tier: Tier) -> Vec<(Scenario, Option<usize>)> {
             // assertion runs on the Option store only, and alone: the single slot is replaced by
             // every registration, and a second assertion is the known lost update)
             v.push((mk("assert(any)", vec![Op::AssertAny], "option"), None));
+            // a store that loses one counter write-back: the ceremony whose write failed must fail,
+            // so that no counter value is ever handed out twice (sequential assertions in one task,
+            // a registration interleaved)
+            v.push((mk("assert;assert(lost write-back)", vec![Op::AssertTwice(1)], "memory-flaky"), None));
             let b3 = Some(tier.pick(2, 3));
+            v.push((mk("assert;assert(lost write-back)||register", vec![Op::AssertTwice(1), Op::Register], "memory-flaky"), b3));
             v.push((mk("assert||assert||assert(same)", vec![Op::Assert(1), Op::Assert(1), Op::Assert(1)], "memory"), b3));
             v.push((mk("assert||assert||register", vec![Op::Assert(1), Op::Assert(1), Op::Register], "memory"), b3));
             v.push((mk("register||register||assert", vec![Op::Register, Op::Register, Op::Assert(2)], "memory"), b3));
@@ -231,6 +299,7 @@ pub fn explore_scenario(sc: &Scenario, bound: Option<usize>, cap: u64) -> Result
                 Some(Outcome::Asserted { counter, .. }) => format!("a{counter}"),
                 Some(Outcome::Registered { .. }) => "r".into(),
                 Some(Outcome::Failed(b)) => format!("e{b:02x}"),
+                Some(Outcome::AssertedTwice { first, second, .. }) => format!("{first:?}+{second:?}"),
                 None => "-".into(),
             }).collect::<Vec<_>>());
             if !outcomes.contains_key(&vec_key) && sample_traces.len() < 3 {
@@ -302,7 +371,7 @@ pub fn run(ctx: &Ctx) -> Result<Run, String> {
     stats.distinct_nontrivial.extend((0..schedules).map(|i| i));
     let mut run = Run::from_stats(
         "model_checking",
-        "every complete schedule (choice of the next enabled task at every suspension point) of 2 concurrent ceremonies, and every schedule with at most 2 (quick) / 3 (thorough) preemptions of 3 ceremonies, over Arc<Mutex<_>> and Arc<RwLock<_>> around MemoryStore / Option<Passkey>; suspension points: before every store call (outer shim), inside every store call while the lock is held (inner shim), in the user-validation step, and tokio's lock waits. Each schedule is one distinct execution of the real code; distinct_nontrivial counts schedules",
+        "every complete schedule (choice of the next enabled task at every suspension point) of 2 concurrent ceremonies, and every schedule with at most 2 (quick) / 3 (thorough) preemptions of 3 ceremonies (also of two assertions in sequence next to a registration on a store that loses one counter write-back), over Arc<Mutex<_>> and Arc<RwLock<_>> around MemoryStore / Option<Passkey>; suspension points: before every store call (outer shim), inside every store call while the lock is held (inner shim), in the user-validation step, and tokio's lock waits. Each schedule is one distinct execution of the real code; distinct_nontrivial counts schedules",
         !capped,
         stats,
     );
